@@ -44,6 +44,10 @@ int tbl_write(const hist_t* h, uint8_t** img, size_t* len, carquet_status_t* st,
 /* same, into a path */
 int tbl_write_path(const hist_t* h, const char* path, carquet_status_t* st, const char** where);
 carquet_schema_t* tbl_schema(const hist_t* h);
+/* logical-type annotations (opt-in, rt harness): when tbl_logical_on is set, half of the histories (chosen by row count, column count and codec) declare their INT32 / INT64 / BYTE_ARRAY
+ * columns with DATE, TIME, INTEGER, TIMESTAMP (each unit, utc or not), STRING, JSON, ENUM.  tbl_logical_of returns false when column c carries none. */
+extern int tbl_logical_on;
+bool tbl_logical_of(const hist_t* h, int c, carquet_logical_type_t* lt);
 /* General executor: writes to `f` (create_file) or to `path` (create).  Executes writer operations (each write_batch,
  * new_row_group and the final close counts as one) and, when stop_after >= 0, calls carquet_writer_abort instead of
  * operation number stop_after.  Reports the first non-OK status. */
